@@ -65,38 +65,76 @@ Definition pays (l : list sev) : list nat := map e_pay l.
 
 Definition last_append_off (s : ostate) : offset := last_off [] (o_log s).
 
+(* which clauses are enforced; all true = the property as stated. Relaxing a clause is only used to
+   classify a failure as a listed known finding, never to pass a check. *)
+Record oflags := {
+  f_lex : bool;     (* append offsets increase under lexicographic comparison *)
+  f_trunc : bool;   (* the next offset of a limit-truncated read denotes the position after the returned events *)
+  f_evoff : bool;   (* per-event offsets (here: those containing '/') denote positions and resume *)
+  f_all : bool      (* a read returns the first n / all remaining events (relaxed: a non-empty prefix of them) *)
+}.
+Definition strict : oflags := {| f_lex := true; f_trunc := true; f_evoff := true; f_all := true |}.
+
+Definition has_slash (o : offset) : bool := existsb (N.eqb 47) o.
+
+Fixpoint learn_events_f (fl : oflags) (m : list (offset * nat)) (evs : list sev) (k : nat) : option (list (offset * nat)) :=
+  match evs with
+  | [] => Some m
+  | e :: r => if negb (f_evoff fl) && has_slash (e_off e) then learn_events_f fl m r (S k)
+              else match learn m (e_off e) (S k) with
+                   | None => None
+                   | Some m' => learn_events_f fl m' r (S k)
+                   end
+  end.
+
+Fixpoint is_prefix (a b : list nat) : bool :=
+  match a, b with
+  | [], _ => true
+  | x :: a', y :: b' => Nat.eqb x y && is_prefix a' b'
+  | _, [] => false
+  end.
+
+Definition read_matches (fl : oflags) (limit : Z) (got expected_rest : list nat) : bool :=
+  if f_all fl then list_eqb Nat.eqb got (take limit expected_rest)
+  else is_prefix got (take limit expected_rest) &&
+       (negb (Nat.eqb (length got) 0) || Nat.eqb (length expected_rest) 0).
+
 (* one step; None = the observed behaviour violates the property *)
-Definition ostep (check_lex : bool) (s : ostate) (o : sop) (r : sres) : option ostate :=
+Definition ostep (fl : oflags) (s : ostate) (o : sop) (r : sres) : option ostate :=
   match o, r with
   | SAppend _ p, RAppend (Some off) =>
       if is_oldest off then None
       else if existsb (fun e => bytes_eqb (e_off e) off) (o_log s) then None     (* unique *)
-      else if check_lex && negb (is_oldest (last_append_off s)) && negb (lexlt (last_append_off s) off) then None
+      else if f_lex fl && negb (is_oldest (last_append_off s)) && negb (lexlt (last_append_off s) off) then None
       else match learn (o_pos s) off (S (length (o_log s))) with
            | None => None
            | Some m => Some {| o_log := o_log s ++ [{| e_off := off; e_pay := p |}]; o_pos := m; o_subs := o_subs s |}
            end
   | SRead _ from limit, RRead (Some (evs, next)) =>
-      match pos_of s from with
+      match (if negb (f_evoff fl) && has_slash from then None else pos_of s from) with
       | None => Some s                       (* an offset the store never issued: nothing is promised *)
       | Some k =>
-        if list_eqb Nat.eqb (pays evs) (pays (take limit (skipn k (o_log s)))) then
-          match learn_events (o_pos s) evs k with
+        if read_matches fl limit (pays evs) (pays (skipn k (o_log s))) then
+          match learn_events_f fl (o_pos s) evs k with
           | None => None
-          | Some m => match learn m next (k + length evs) with
-                      | None => None
-                      | Some m' => Some {| o_log := o_log s; o_pos := m'; o_subs := o_subs s |}
-                      end
+          | Some m =>
+            if negb (f_trunc fl) && (0 <? limit)%Z && (Z.of_nat (length evs) =? limit)%Z
+            then Some {| o_log := o_log s; o_pos := m; o_subs := o_subs s |}
+            else match learn m next (k + length evs) with
+                 | None => None
+                 | Some m' => Some {| o_log := o_log s; o_pos := m'; o_subs := o_subs s |}
+                 end
           end
         else None
       end
-  | SRead _ from _, RRead None => match pos_of s from with None => Some s | Some _ => None end
+  | SRead _ from _, RRead None =>
+      match (if negb (f_evoff fl) && has_slash from then None else pos_of s from) with None => Some s | Some _ => None end
   | SStream _ from, RStream (Some evs) =>
       match pos_of s from with
       | None => Some s
       | Some k =>
         if list_eqb Nat.eqb (pays evs) (pays (skipn k (o_log s))) then
-          match learn_events (o_pos s) evs k with
+          match learn_events_f fl (o_pos s) evs k with
           | None => None
           | Some m => Some {| o_log := o_log s; o_pos := m; o_subs := o_subs s |}
           end
@@ -110,30 +148,43 @@ Definition ostep (check_lex : bool) (s : ostate) (o : sop) (r : sres) : option o
   | _, _ => None
   end.
 
-Definition store_of (o : sop) : nat :=
-  match o with SAppend k _ | SRead k _ _ | SStream k _ | SSave k _ _ | SLoad k _ => k end.
-
-Fixpoint ok_walk (check_lex : bool) (st : ostate * ostate) (ops : list sop) (obs : list sres) : bool :=
+Fixpoint ok_walk (fl : oflags) (st : ostate * ostate) (ops : list sop) (obs : list sres) : bool :=
   match ops, obs with
   | [], [] => true
   | o :: ro, r :: rr =>
       let k := store_of o in
       let s := if Nat.eqb k 0 then fst st else snd st in
-      match ostep check_lex s o r with
+      match ostep fl s o r with
       | None => false
-      | Some s' => ok_walk check_lex (if Nat.eqb k 0 then (s', snd st) else (fst st, s')) ro rr
+      | Some s' => ok_walk fl (if Nat.eqb k 0 then (s', snd st) else (fst st, s')) ro rr
       end
   | _, _ => false
   end.
 
-Definition ok10 (ops : list sop) (obs : list sres) : bool := ok_walk true (o_init, o_init) ops obs.
-Definition ok10_nolex (ops : list sop) (obs : list sres) : bool := ok_walk false (o_init, o_init) ops obs.
+Definition ok10 (ops : list sop) (obs : list sres) : bool := ok_walk strict (o_init, o_init) ops obs.
 
-(* known-finding patterns: 1 = only the lexicographic clause fails (SQLite's unpadded decimal offsets) *)
-Definition known10 (ops : list sop) (obs : list sres) : nat :=
-  if negb (ok10 ops obs) && ok10_nolex ops obs then 1 else 0.
+(* known-finding classification: the smallest set of clauses (among those a store is known to miss)
+   whose relaxation makes the history acceptable, as a bit mask: 1 lex, 2 trunc, 4 evoff, 8 all.
+   0 = either the history is fine or no listed relaxation explains the failure. *)
+Definition flags_of_mask (m : nat) : oflags :=
+  {| f_lex := negb (Nat.testbit m 0); f_trunc := negb (Nat.testbit m 1);
+     f_evoff := negb (Nat.testbit m 2); f_all := negb (Nat.testbit m 3) |}.
+Fixpoint first_mask (masks : list nat) (ops : list sop) (obs : list sres) : nat :=
+  match masks with
+  | [] => 0
+  | m :: r => if ok_walk (flags_of_mask m) (o_init, o_init) ops obs then m else first_mask r ops obs
+  end.
+Definition known_masks (masks : list nat) (ops : list sop) (obs : list sres) : nat :=
+  if ok10 ops obs then 0 else first_mask masks ops obs.
 
 Definition check10_mem (c : list sop * list sres) : bool * bool * nat :=
-  let '(i, o) := c in (agree_mem i o, ok10 i o, known10 i o).
+  let '(i, o) := c in (agree_mem i o, ok10 i o, 0).
 Definition check10_sq (c : list sop * list sres) : bool * bool * nat :=
-  let '(i, o) := c in (agree_sq i o, ok10 i o, known10 i o).
+  let '(i, o) := c in (agree_sq i o, ok10 i o, known_masks [1] i o).
+
+(* ---- durable-streams ---- *)
+Definition agree_ds (chunk : nat) (ops : list sop) (obs : list sres) : bool :=
+  list_eqb sres_eqb (run_init ds (ds_impl chunk) ops) obs.
+
+Definition check10_ds (c : nat * list sop * list sres) : bool * bool * nat :=
+  let '(chunk, i, o) := c in (agree_ds chunk i o, ok10 i o, known_masks [2; 4; 8; 6; 10; 12; 14] i o).
